@@ -57,9 +57,14 @@ type PrintConfig struct {
 }
 
 // Print reads and prints back out the log file
-func Print(logStream io.Reader, pc PrintConfig) error {
+func Print(logStream io.Reader, pc PrintConfig) (err error) {
 	r := NewPrintReporter(pc.ReporterConfig)
-	defer r.Flush()
+	defer func() {
+		// a report that could not be written is an error
+		if ferr := r.Flush(); err == nil {
+			err = ferr
+		}
+	}()
 	f := filter.GetIntervalNodeFilter(pc.FilterConfig)
 	return utils.WalkNodesInStream(logStream, pc.DateFormat, pc.ParserConfig, f, r)
 }
